@@ -25,6 +25,7 @@ def run(ctx):
                          change_kinds=["touch", "touch", "touch", "edit", "edit_hdr"], nchg_choices=(1, 2, 2, 3),
                          allow_faults=False, allow_interrupt=False, allow_edit_running=False)
     incr.run_dd_restat(ctx, "C03", n // 10)
+    incr.run_late_deps(ctx, "C03", n // 6)
     # self-regenerating manifests: build.ninja is a generator output selected by a config file
     incr.run_regen(ctx, "C03", n // 10, size_range=(2, 6))
     ctx.rule = ("seeded random graphs of 3..%d statements x histories of 2..5 change+build rounds (plus immediate re-runs), plus histories in which ninja regenerates and reloads its own manifest; "
